@@ -8,7 +8,7 @@ import re
 from .. import core, gen
 from ..core import Rng
 from ..engine import Outcome
-from .base import STD, exec_args, gen_run, plan_of, not_meta, crashed, classify_diff, exotic_tag, crash_text, split_static_function, K8_SIG
+from .base import STD, exec_args, gen_run, plan_of, not_meta, crashed, classify_diff, exotic_tag, crash_text, split_static_function, K8_SIG, input_args, project_candidates
 
 UNMATCHED_PREFIX = "Unmatched suppression: "
 
@@ -74,12 +74,13 @@ def run_pair(scn, wd, out, variant="plain", text_channel=False):
 
     std = ["-q", core.TEXT_TEMPLATE] if scn.get("channel") == "text" else STD
     b, roots = bd_args()
-    ref = core.run_sim(variant, tree_dir, std + oargs + b + ["-j1"] + units, plan=None, tag="ref")
+    strip = tree_dir if scn.get("project") else None
+    ref = core.run_sim(variant, tree_dir, std + oargs + b + ["-j1"] + input_args(scn, units, tree_dir, wd, "ref"), plan=None, tag="ref", strip=strip)
     res = []
     for i, run in enumerate(scn["subjects"]):
         b, roots = bd_args()
-        r = core.run_sim(variant, tree_dir, std + oargs + b + exec_args(run) + units, plan=plan_of(run), roots=roots, workdir=wd,
-                         tag="sub%d" % i)
+        r = core.run_sim(variant, tree_dir, std + oargs + b + exec_args(run) + input_args(scn, units, tree_dir, wd, "sub%d" % i), plan=plan_of(run),
+                         roots=roots, workdir=wd, tag="sub%d" % i, strip=strip)
         out.account(r)
         res.append((run, r))
     return ref, res
@@ -169,6 +170,8 @@ def exec_candidates(scn):
         if r.get("sched") not in (None, "rr"):
             c = copy.deepcopy(scn); c["subjects"][i]["sched"] = "rr"
             yield c
+    for c in project_candidates(scn):
+        yield c
     if scn.get("bd"):
         c = copy.deepcopy(scn); c["bd"] = False
         yield c
@@ -198,5 +201,5 @@ def exec_candidates(scn):
 
 def describe_exec(scn):
     return {"units": scn["units"], "opts": gen.flatten_opts(scn.get("opts", {})) + scn.get("suppr", []), "build_dir": bool(scn.get("bd")), "channel": scn.get("channel", "xml"),
-            "error_exitcode": scn.get("exitcode"),
+            "error_exitcode": scn.get("exitcode"), "compile_commands": scn.get("project"),
             "subjects": [" ".join(exec_args(r)) + "".join(" %s=%s" % (k, r[k]) for k in ("sched", "sel_timeout", "wait_lag", "loadavg") if r.get(k)) for r in scn["subjects"]]}
